@@ -75,7 +75,7 @@ PROPS['C04'] = dict(
 
 PROPS['C06'] = dict(
     prop_modules=['Vise.Props.C06', 'Vise.Props.C06Reach'], lean_targets=['Vise.Props.C06', 'Vise.Props.C06Reach'], suites=['engine'],
-    compare={'engine': eng(['x', 'c', 'fl', 'cl', 'p', 'i'])},
+    compare={'engine': eng(['x', 'c', 'f', 'o', 'fl', 'cl', 'p', 'i'])},
     trusted=ENGINE_TRUSTED + ["flag threshold, comparison operator and flag numbers are regenerated from state/flag.go on every run"],
     assumptions=[],
 )
